@@ -125,6 +125,26 @@ def script_from_state(m, sc, v, trail=None):
         mm = re.match(r'^lin (\w+)#(\d+)$', lab)
         if mm:
             op = {'op': 'rpc', 'method': mm.group(1)}
+            if mm.group(1) == 'datastore':
+                # several writes may be outstanding (two lifecycles): name the one the model linearised here
+                try:
+                    call = env.calls[int(mm.group(2))]
+                    from ..env_node import field as _field, _short as _sh
+                    keyv = _field(m, call.args, 'key')
+                    kind = 'attempts' if len(keyv.items) > 4 else 'state'
+                    mode = _field(m, call.args, 'mode')
+                    modes = {'MUST_CREATE': 'must-create', 'MUST_REPLACE': 'must-replace', 'CREATE_OR_REPLACE': 'create-or-replace'}
+                    want = {'key_kind': kind}
+                    if mode.variant == 'Some':
+                        want['mode'] = modes.get(mode.fields[0].variant, 'must-create')
+                    sv = _sh(_field(m, call.args, 'string'))
+                    for tag in ('Free', 'Pending', 'Succeeded'):
+                        if tag in sv:
+                            want['string_contains'] = tag
+                    want['has_generation'] = _field(m, call.args, 'generation').variant == 'Some'
+                    op['match'] = want
+                except Exception:
+                    pass
             for l, c in stp['choices']:
                 if l.startswith('fault?') and c > 0:
                     code = env.fault_codes[c - 1][0]
@@ -524,6 +544,9 @@ def j_unpayable(v, script, nat):
         recs = [d for d in nat.get('datastore', []) if d['key'][-1] == 'state']
         return True, 'all %d retries failed natively (%s); state record left as %s' % (
             want, [r['response'].get('failure_message') for r in probes], [d['string'][:40] for d in recs])
+    hung = [w for w in nat.get('still_waiting', []) if w[1] >= 1]
+    if want and len(hung) + len(probes) >= want and hung:
+        return True, 'retries %s were never answered natively (and %d failed): the hash is stuck' % (hung, len(probes))
     return False, 'retries not all answered natively: %s, waiting %s' % (probes, nat.get('still_waiting'))
 
 def j_classify(v, script, nat):
